@@ -19,9 +19,10 @@ Proof.
   apply list_eqb_spec in H1. apply negb_true_iff in H2. split; assumption.
 Qed.
 Lemma charset_ascii : Forall (fun x => x < 128) bech32_charset.
-Proof. apply Forall_forall. intros x Hx. apply memb_In in Hx. revert x Hx.
+Proof.
   assert (H : forallb (fun x => x <? 128) bech32_charset = true) by (vm_compute; reflexivity).
-  rewrite forallb_forall in H. intros x Hx. apply memb_In in Hx. apply N.ltb_lt. auto. Qed.
+  rewrite forallb_forall in H. apply Forall_forall. intros x Hx. apply N.ltb_lt. auto.
+Qed.
 
 Lemma sep_stable s : In s [bech32_sep; segwit_sep; cash_sep] -> stable s /\ ~ In s bech32_charset /\ s < 128.
 Proof.
